@@ -93,3 +93,10 @@ def fill(C, PENDING):
       "a case flagged by the wall watchdog is re-run under a sys.monitoring line counter and violates only if it executes more than 50x the lines of an intact load.",
       "Fault model limited to k<=4 byte corruption and single truncation; for faults inside one zone field of the full file only the affected zones plus a "
       "seeded sample are fetched.", "§3 C20")
+
+    C("C19", "exploration", "runtime monitoring: sequential model differential + structural deadlock watchdog + offline linearizability checker over recorded histories with yield injection",
+      "Seeded operation sequences on a real FakeClock are compared with the (now, auto) model; every operation runs under a watchdog that decides "
+      "self-deadlock from the blocked thread's stack, not from a deadline; many short multi-thread histories are recorded at the client boundary with "
+      "unique decodable values (auto-advance 1 ns, distinct power-of-two advances) and checked offline for duplicate reads, chain consistency with "
+      "real-time order and conservation, with sys.monitoring yield injection inside FakeClock; ZonedClock views and SystemClock bracketing.",
+      "Sampled schedules only (evidence reports histories, injections and distinct interleaving signatures); CPython GIL semantics define what an interleaving is.", "§3 C19")
